@@ -36,7 +36,7 @@ From Knut Require Import Model.Str Model.Dec Model.Date Model.Account Model.Ledg
      Model.Table Model.Report Model.JPrinter Model.ImpCommonA
      Model.Imp.Swisscard2 Model.Imp.Viac Model.Imp.Cumulus Model.Imp.Postfinance Model.Imp.Swisscard
      Model.Imp.Supercard
-     Spec.ImpSpecA Proofs.DecValue Proofs.PairProofs Proofs.ImpProofsA Proofs.ImpRunB.
+     Spec.ImpSpecA Spec.ImpStmtA Proofs.DecValue Proofs.PairProofs Proofs.ImpProofsA Proofs.ImpRunB Proofs.ImpStdoutA.
 Import ListNotations.
 
 (* ---------------------------------------------------------------- sign conventions *)
@@ -228,6 +228,122 @@ Theorem C13_supercard_end_to_end : forall flag acct header rows,
     map t_desc ts = map build_desc (map sup_text (filter sup_is_booking rows)).
 Proof. exact supercard_run. Qed.
 Print Assumptions C13_supercard_end_to_end.
+
+(* ---------------------------------------------------------------- executable statement-level forms *)
+(* Spec/ImpStmtA.v defines, from the row readings of Spec/ImpSpecA.v (X_wf_row, X_fact, X_text), the
+   realisation of a row fact as one booking between the import account and Expenses:TBD and the shared
+   printer -- not from the importer model -- the journal text X_statement_output the property
+   prescribes for the records of a well-formed statement (None for any other list of records).
+   The command prints exactly that text.  ./check C13 evaluates the extracted X_statement_output
+   on the records of every generated well-formed statement and compares it with the standard
+   output of the binary (drv_c13a.ml, verdict `spec`).  Unlike `books`, the executable form says
+   which decimal is printed (the amount as written) and which way round a booking of zero is
+   written (charge_directive / change_directive). *)
+
+(* the executable form refines the relation: the transaction prescribed for a row fact books it
+   (so every X_statement_output is the journal of transactions that `books` the statement's row
+   facts, described by the rows' texts) *)
+Theorem C13_change_directive_books : forall acct f text, acct <> tbd_account ->
+  exists t, change_directive acct f text = DTxn t /\ books acct tbd_account f t /\ t_desc t = build_desc text.
+Proof. exact change_directive_books. Qed.
+Print Assumptions C13_change_directive_books.
+
+Theorem C13_charge_directive_books : forall acct f text, acct <> tbd_account ->
+  exists t, charge_directive acct f text = DTxn t /\ books acct tbd_account f t /\ t_desc t = build_desc text.
+Proof. exact charge_directive_books. Qed.
+Print Assumptions C13_charge_directive_books.
+
+(* swisscard2: a header record, then well-formed rows; per row the charge Betrag booked from the
+   account to Expenses:TBD *)
+Theorem C13_swisscard2_stdout : forall flag acct recs,
+  account_flag flag = AAcc acct -> sc2_statement_wf recs = true ->
+  exists out, sc2_statement_output acct recs = Some out /\ run_swisscard2 flag (map CRec recs) = mkRun out SOk.
+Proof. exact swisscard2_stdout. Qed.
+Print Assumptions C13_swisscard2_stdout.
+
+(* postfinance: key/value lines, the column header, well-formed booking rows, one further record,
+   one-field disclaimer lines (pf_parts cuts the records up accordingly), the currency named by
+   the key/value lines valid; per row the amount as written booked from Expenses:TBD to the
+   account.  With the debugging statement (dbg = true, F13) the record after the rows precedes the
+   journal.  (C13_postfinance_stdout above is the older theorem about the debugging line.) *)
+Theorem C13_postfinance_statement_stdout : forall dbg flag acct recs,
+  account_flag flag = AAcc acct -> pf_statement_wf recs = true ->
+  exists out, pf_statement_output acct recs = Some out /\
+    run_postfinance dbg flag (map CRec recs) = mkRun (pf_debug_line dbg (pf_after_rows recs) ++ out) SOk.
+Proof. exact postfinance_stdout. Qed.
+Print Assumptions C13_postfinance_statement_stdout.
+
+(* the statement of the golden test in miniature: one key/value line, header, one row, disclaimer *)
+Example C13_postfinance_statement_wf :
+  let row := [[48;56;46;48;51;46;50;48;50;50]; [100]; []; [45;49;57]; [102]; [98]; [48;56;46;48;51;46;50;48;50;50]; []]%Z in
+  pf_statement_wf [[s_waehr; [61;34;69;85;82;34]]; [[66]]; row; [[68]]; [[69]]]%Z = true /\
+  pf_parts [[s_waehr; [61;34;69;85;82;34]]; [[66]]; row; [[68]]; [[69]]]%Z =
+    Some ([[s_waehr; [61;34;69;85;82;34]]], [[66]], [row], [[68]], [[[69]]])%Z.
+Proof. vm_compute. split; reflexivity. Qed.
+
+(* viac: the decoded dailyWealth entries well-formed, --from (if given) a date; one price per entry
+   that is not before that day and whose value is not zero *)
+Theorem C13_viac_stdout : forall flag from l,
+  valid_name flag = true -> viac_statement_wf from l = true ->
+  exists out, viac_statement_output flag from l = Some out /\ run_viac flag from (VValues l) = mkRun out SOk.
+Proof. exact viac_stdout. Qed.
+Print Assumptions C13_viac_stdout.
+
+Example C13_viac_statement_wf :
+  viac_statement_wf (Some [50;48;49;56;45;48;54;45;50;48]%Z)
+                    [([50;48;49;56;45;48;54;45;50;48]%Z, [54;55;54;56;46;53;53;54]%Z)] = true.
+Proof. vm_compute. reflexivity. Qed.
+
+(* supercard: the "sep=;" record, the column header, well-formed rows; per booking row Gutschrift
+   resp. -Belastung booked from Expenses:TBD to the account *)
+Theorem C13_supercard_stdout : forall flag acct recs,
+  account_flag flag = AAcc acct -> sup_statement_wf recs = true ->
+  exists out, sup_statement_output acct recs = Some out /\ run_supercard flag (map CRec recs) = mkRun out SOk.
+Proof. exact supercard_stdout. Qed.
+Print Assumptions C13_supercard_stdout.
+
+Example C13_supercard_statement_wf :
+  sup_statement_wf [sup_first; [[75]];
+             [[49]; [50]; [79]; [48;57;46;48;53;46;50;48;50;49]; [65]; [84]; [51;46;50;48]; s_CHF; []; s_CHF;
+              [51;46;50;48]; []; [49;48;46;48;53;46;50;48;50;49]]]%Z = true.
+Proof. vm_compute. reflexivity. Qed.
+
+(* swisscard: every record a well-formed row (a booking row or an ignored one); per booking row the
+   Billing Amount booked from the account to Expenses:TBD *)
+Theorem C13_swisscard_stdout : forall flag acct recs,
+  account_flag flag = AAcc acct -> sc_statement_wf recs = true ->
+  exists out, sc_statement_output acct recs = Some out /\ run_swisscard flag (map CRec recs) = mkRun out SOk.
+Proof. exact swisscard_stdout. Qed.
+Print Assumptions C13_swisscard_stdout.
+
+Example C13_swisscard_statement_wf :
+  sc_statement_wf [[[84]; [80]; [67]; [66]; [68]; [67]; [83]; [90]; [82]; [70]; [83]];
+            [[49;52;46;48;50;46;50;48;50;48]; [49;52;46;48;50;46;50;48;50;48]; [49]; [45;67;72;70;50;39;48;48;48;46;53;48];
+             [100]; []; []; []; []; [68]; []]]%Z = true.
+Proof. vm_compute. reflexivity. Qed.
+
+(* cumulus: the records, read as entries by cum_entries (a comment row belongs to the booking or
+   rounding row before it; every other record is a well-formed booking row, rounding row or ignored
+   record; no comment row before the first row or after an ignored record); per booking/rounding row
+   +Gutschrift resp. -Belastung booked from Expenses:TBD to the account, the comments appended to the
+   description *)
+Theorem C13_cumulus_stdout : forall flag acct recs,
+  account_flag flag = AAcc acct -> cum_statement_wf recs = true ->
+  exists out, cum_statement_output acct recs = Some out /\ run_cumulus flag (map CRec recs) = mkRun out SOk.
+Proof. exact cumulus_stdout. Qed.
+Print Assumptions C13_cumulus_stdout.
+
+(* cum_entries is the inverse of cum_records on well-formed entries: the records of
+   C13_cumulus_entries_wf are read as those entries *)
+Example C13_cumulus_statement_wf :
+  let d1 := [50;50;46;48;56;46;50;48;50;48]%Z in      (* 22.08.2020 *)
+  let d2 := [50;52;46;48;56;46;50;48;50;48]%Z in      (* 24.08.2020 *)
+  let es := [CumIgnored [[86]; [66]; [71]; [66]]%Z;
+             CumIgnored [d1; [73;104;114;101]; [49;39;50;51;52;46;53;54]; []]%Z;
+             CumBooking [d1; d2; [68;101;115;99]; []; [49;39;50;51;51;46;52;53]]%Z [[70;88]%Z];
+             CumRounding [d2; s_rund; [48;46;48;50]; []]%Z []] in
+  cum_entries (flat_map cum_records es) = Some es.
+Proof. vm_compute. reflexivity. Qed.
 
 (* swisscard: the importer's one-pass replacer = remove every "CHF", then every "'" *)
 Theorem C13_swisscard_amount_text : forall s, sc_clean s = sc_amount_text s.
